@@ -70,3 +70,163 @@ class HKSeam:
     @staticmethod
     def all_orders(n):
         return itertools.permutations(range(n))
+
+
+# --------------------------------------------------------------------------------------------
+# NumPy random draws inside persim.gromov_hausdorff (explorer C)
+# --------------------------------------------------------------------------------------------
+class UnmodelledNondeterminism(Exception):
+    pass
+
+
+class _RandomSeam:
+    def __init__(self, owner):
+        self._o = owner
+
+    def permutation(self, n):
+        import math
+
+        import numpy as np
+
+        from mc.choices import kth_permutation
+
+        n = int(n)
+        k = self._o.chooser.choose("perm", math.factorial(n))
+        p = kth_permutation(n, k)
+        self._o.last_perm = tuple(p)
+        self._o.draws += 1
+        return np.array(p)
+
+    def choice(self, n):
+        self._o.draws += 1
+        return int(self._o.chooser.choose("choice", int(n)))
+
+    def __getattr__(self, name):
+        raise UnmodelledNondeterminism("np.random.%s is not owned by the explorer" % name)
+
+
+class _NPProxy:
+    def __init__(self, real, random):
+        self.__dict__["_real"] = real
+        self.__dict__["random"] = random
+
+    def __getattr__(self, name):
+        return getattr(self._real, name)
+
+
+class MGHSeam:
+    """Owns every np.random draw of persim.gromov_hausdorff and tracks the heuristic's summary
+    state (direction, goal, mappings tried, best distortion) for state-key pruning."""
+
+    def __init__(self):
+        self.chooser = None
+        self.draws = 0
+        self.last_perm = None
+        self.direction = 0
+        self.goal = None
+        self.tried = 0
+        self.best = None
+        self.tracked = False
+        self.memoize = False
+        self.cache = {}
+
+    def key(self, kind, n):
+        if not self.tracked:
+            return None
+        return (kind, n, self.direction, self.goal, self.tried, self.best, self.last_perm if kind == "choice" else None)
+
+    @contextlib.contextmanager
+    def installed(self):
+        import persim.gromov_hausdorff  # noqa: F401
+
+        gh = sys.modules["persim.gromov_hausdorff"]
+        real_np = gh.np
+        gh.np = _NPProxy(real_np, _RandomSeam(self))
+        saved = {}
+        seam = self
+        if hasattr(gh, "find_ub_of_min_distortion") and hasattr(gh, "construct_mapping"):
+            self.tracked = True
+            f_ub, f_cm = gh.find_ub_of_min_distortion, gh.construct_mapping
+            saved = {"find_ub_of_min_distortion": f_ub, "construct_mapping": f_cm}
+
+            def ub_wrap(*a, **kw):
+                seam.direction += 1
+                g = kw.get("goal_distortion", a[3] if len(a) > 3 else 0)
+                seam.goal = float(g)
+                seam.tried = 0
+                seam.best = None
+                return f_ub(*a, **kw)
+
+            def cm_wrap(*a, **kw):
+                r = f_cm(*a, **kw)
+                seam.tried += 1
+                d = float(r[1])
+                seam.best = d if seam.best is None else min(seam.best, d)
+                return r
+
+            gh.find_ub_of_min_distortion = ub_wrap
+            gh.construct_mapping = cm_wrap
+        else:
+            self.tracked = False
+        if self.memoize:
+            # the deterministic prefix of every execution (distance matrices, lower bound) is the
+            # same under every schedule of one pair: compute it once per distinct input, but only
+            # cache executions during which no random draw happened
+            import numpy as _np
+
+            def memo(name, keyfn):
+                fn = getattr(gh, name, None)
+                if fn is None:
+                    return
+                saved.setdefault(name, fn)
+
+                def w(*a, **kw):
+                    k = (name, keyfn(*a, **kw))
+                    if k in seam.cache:
+                        r, warned = seam.cache[k]
+                        import warnings as _w
+
+                        for m, c in warned:  # a cached execution re-raises the warnings it raised
+                            _w.warn(m, c)
+                        return r.copy() if isinstance(r, _np.ndarray) else r
+                    d0 = seam.draws
+                    import warnings as _w
+
+                    with _w.catch_warnings(record=True) as rec:
+                        _w.simplefilter("always")
+                        r = fn(*a, **kw)
+                    warned = [(str(x.message), x.category) for x in rec]
+                    for m, c in warned:
+                        _w.warn(m, c)
+                    if seam.draws == d0:
+                        seam.cache[k] = (r.copy() if isinstance(r, _np.ndarray) else r, warned)
+                    return r
+
+                setattr(gh, name, w)
+
+            arrkey = lambda x: (type(x).__name__, x.shape, x.dtype.str, x.tobytes()) if isinstance(x, _np.ndarray) else None  # noqa: E731
+
+            def k_dm(AG):
+                k = arrkey(AG)
+                return k if k is not None else ("nocache", id(AG), seam.draws, len(seam.cache))
+
+            def k_lb(DX, DY):
+                return (arrkey(DX), arrkey(DY))
+
+            memo("make_distance_matrix_from_adjacency_matrix", k_dm)
+            memo("find_lb", k_lb)
+        try:
+            yield gh
+        finally:
+            gh.np = real_np
+            for k, v in saved.items():
+                setattr(gh, k, v)
+
+    def start_run(self, chooser):
+        self.chooser = chooser
+        chooser.key_fn = self.key
+        self.direction = 0
+        self.goal = None
+        self.tried = 0
+        self.best = None
+        self.last_perm = None
